@@ -5,7 +5,7 @@
 use crate::model::*;
 use crate::rng::Rng;
 
-pub const THEMES: &[&str] = &["random", "multicheck", "ep", "castle", "material", "sparse"];
+pub const THEMES: &[&str] = &["random", "multicheck", "ep", "castle", "material", "sparse", "cornered"];
 
 fn put(m: &mut Model, s: u8, k: u8, c: u8) -> bool {
     if m.sq[s as usize].is_some() {
@@ -243,6 +243,55 @@ fn attempt(rng: &mut Rng, theme: usize) -> Option<Model> {
             }
         }
         5 => {
+            { let n = rng.below(4); scatter(&mut m, rng, n); }
+        }
+        6 => {
+            // the mover's king on the rim with few flight squares, heavy enemy pieces near it and an
+            // own piece standing on a line between the king and an enemy slider: mates, stalemates,
+            // immobile pinned pieces, single legal moves
+            let us = m.stm;
+            let old = m.king_sq(us).unwrap();
+            m.sq[old as usize] = None;
+            let rim: Vec<u8> = (0..64u8).filter(|&s| file_of(s) == 0 || file_of(s) == 7 || rank_of(s) == 0 || rank_of(s) == 7).collect();
+            let mut k = *rng.pick(&rim);
+            if rng.chance(1, 2) {
+                k = [0u8, 7, 56, 63][rng.below(4) as usize];
+            }
+            if m.sq[k as usize].is_some() {
+                return None;
+            }
+            m.sq[k as usize] = Some((KING, us));
+            let (f, r) = (file_of(k), rank_of(k));
+            // the enemy king two squares away (takes the opposition) or anywhere
+            let ek_old = m.king_sq(us ^ 1).unwrap();
+            if rng.chance(2, 3) {
+                let d = [(2i8, 0i8), (-2, 0), (0, 2), (0, -2), (2, 1), (1, 2), (-2, 1), (-1, 2), (2, -1), (1, -2), (-2, -1), (-1, -2), (2, 2), (-2, 2), (2, -2), (-2, -2)][rng.below(16) as usize];
+                if let Some(s) = mk(f + d.0, r + d.1) {
+                    if m.sq[s as usize].is_none() {
+                        m.sq[ek_old as usize] = None;
+                        m.sq[s as usize] = Some((KING, us ^ 1));
+                    }
+                }
+            }
+            // a pinned own piece next to the king with the pinning slider behind it
+            for _ in 0..(1 + rng.below(2)) {
+                let d = [(0i8, 1i8), (1, 0), (0, -1), (-1, 0), (1, 1), (1, -1), (-1, -1), (-1, 1)][rng.below(8) as usize];
+                let n1 = 1 + rng.below(2) as i8;
+                let n2 = n1 + 1 + rng.below(3) as i8;
+                if let (Some(a), Some(b)) = (mk(f + d.0 * n1, r + d.1 * n1), mk(f + d.0 * n2, r + d.1 * n2)) {
+                    let straight = d.0 == 0 || d.1 == 0;
+                    let own = [BISHOP, ROOK, KNIGHT, PAWN, QUEEN][rng.below(5) as usize];
+                    let pinner = if rng.chance(1, 3) { QUEEN } else if straight { ROOK } else { BISHOP };
+                    if put(&mut m, a, own, us) {
+                        put(&mut m, b, pinner, us ^ 1);
+                    }
+                }
+            }
+            // enemy heavy pieces controlling the king's neighbourhood
+            for _ in 0..rng.below(4) {
+                let s = mk((f + rng.below(5) as i8 - 2).clamp(0, 7), (r + rng.below(5) as i8 - 2).clamp(0, 7)).unwrap();
+                put(&mut m, s, [QUEEN, ROOK, KNIGHT, BISHOP, PAWN][rng.below(5) as usize], us ^ 1);
+            }
             { let n = rng.below(4); scatter(&mut m, rng, n); }
         }
         _ => {
